@@ -5,13 +5,19 @@
    into exactly (M, L) and opening it yields the main-file state at the last visible savepoint of L, applying
    no half-written record (C05_no_half_write carries over: same replay).  Since stage 5 appends a savepoint
    under the exclusive lock and copies the rest of the log, that savepoint is the "single instant".
-   NOT proved (partial, see DESIGN C07/C08): that M is the state at the stage-2 checkpoint under every thread
-   schedule (M is read with pread while writers touch only their private mapping and checkpoints are suspended -
-   and the one case where this breaks, file growth during the copy, is the known finding
-   "growth-during-main-copy" found by checks/C08.py), and live_unaffected. *)
+   The stage half, at the level of operations (C08_backup_image_is_snapshot): over Backup.backup_run, for every
+   history before the call and every list of whole operations / syncs / checkpoints executed by writers during the
+   main-file copy (evM) and at the end of the first log copy (evA), the image opens to the state after ALL of them:
+   every operation completed before the closing savepoint of stage 5, nothing later, nothing partial; restricted to
+   one writer that is a prefix of its operations in issue order (C08_prefix_per_writer).  That no writer event
+   falls into stage 5 and that evA ends at an operation boundary is what the store's exclusive lock gives
+   (observed: lock skeleton of harness/h_bkpload.c); without it the image is torn: C08_writer_in_stage5_refuted.
+   NOT proved (partial): that the bytes pread in stage 3 are the stage-2 state under every thread schedule (writers
+   touch only their private mapping, checkpoints are suspended; file growth there is the known finding
+   "growth-during-main-copy"), and live_unaffected. *)
 Require Import ZArith List Bool. Require Import IW.Lib.CInt IW.Gen.Facts.
 Require Import IW.WAL.Rec IW.WAL.Rec_proofs IW.WAL.Scan IW.WAL.Scan_proofs IW.WAL.Replay IW.WAL.Replay_proofs
-  IW.WAL.Proto IW.WAL.Backup IW.WAL.Backup_proofs.
+  IW.WAL.Proto IW.WAL.Backup IW.WAL.Backup_proofs IW.WAL.Hist IW.WAL.Hist_proofs IW.WAL.Snapshot_proofs.
 Import ListNotations. Local Open Scope Z_scope.
 
 (* a one-page main file with the two magic numbers the opener looks for, and a log with a reset mark *)
@@ -107,3 +113,59 @@ Example C08_failed_backup_releases_ex :
   p_stage (fst (backup_run_fail rm_cfg rm_s0 5 9 [] rm_evA BKP_WAL_COPY2)) = 0 /\
   nth 100 (p_disk (fst (backup_run_fail rm_cfg rm_s0 5 9 [] rm_evA BKP_WAL_COPY2))) 0 = 1.
 Proof. vm_compute. split; reflexivity. Qed.
+
+(* ---- the snapshot theorem at the level of operations.  hpre = history before the call (from a freshly opened store),
+   hM / hA = what the writers complete while the main file is copied / at the end of the first log copy: whole
+   operations (no _onresize / _oncopy call: item_ok), syncs and checkpoints in any number and order, with or without
+   checksums, any log-buffer size.  The image opens - whatever the options of the opening process - to the state after
+   hpre ++ hM ++ hA. *)
+Theorem C08_backup_image_is_snapshot : forall c ccrc D0 hpre hM hA ts2 ts5 Mpre Mf,
+  cfg_ok c = true -> hist_ok hpre = true -> hist_ok hM = true -> hist_ok hA = true ->
+  (0 <=? ts2) && (ts2 <? 18446744073709551616) = true -> (0 <=? ts5) && (ts5 <? 18446744073709551616) = true ->
+  apply_ops D0 (hist_ops hpre) = Some Mpre -> apply_ops Mpre (hist_ops (hM ++ hA)) = Some Mf -> main_ok Mpre ->
+  exists ops',
+    open_image ccrc (fst (backup_run c (fst (run c (fresh D0) (flat hpre))) ts2 ts5 (flat hM) (flat hA))) = (VOk, Mf, ops').
+Proof. exact (fun c ccrc D0 hpre hM hA ts2 ts5 Mpre Mf => backup_image_is_snapshot c ccrc D0 hpre hM hA ts2 ts5 Mpre Mf eq_refl). Qed.
+Print Assumptions C08_backup_image_is_snapshot.
+
+(* hypotheses satisfiable: a synced store before the call, one operation during the main-file copy, an operation, a
+   forced checkpoint (reset mark in the image, live main file ahead of the image's main part) and another operation
+   at the end of the first log copy; the image opens to all five stores *)
+Definition sn_pre : list hitem := [HOp [VWrite 100 [1]]; HSync 3 true].
+Definition sn_M : list hitem := [HOp [VWrite 101 [2]; VSet 110 9 2]].
+Definition sn_A : list hitem := [HOp [VWrite 102 [3]]; HCkpt 7; HOp [VWrite 103 [4]]; HSync 8 false].
+Example C08_backup_image_is_snapshot_ex :
+  cfg_ok rm_cfg = true /\ hist_ok sn_pre = true /\ hist_ok sn_M = true /\ hist_ok sn_A = true /\
+  (exists Mpre, apply_ops rm_main (hist_ops sn_pre) = Some Mpre /\ main_ok Mpre /\ nth 100 Mpre 0 = 1) /\
+  (let '(v, m, _) := open_image false (fst (backup_run rm_cfg (fst (run rm_cfg (fresh rm_main) (flat sn_pre))) 5 9 (flat sn_M) (flat sn_A))) in
+   (v, firstn 4 (skipn 100 m), firstn 2 (skipn 110 m))) = (VOk, [1;2;3;4], [9;9]) /\
+  no_reset (match parse (p_log (snd (backup_run rm_cfg (fst (run rm_cfg (fresh rm_main) (flat sn_pre))) 5 9 (flat sn_M) (flat sn_A)))) with
+            | Some R => R | None => [] end) = false.
+Proof.
+  split; [reflexivity|]. split; [reflexivity|]. split; [reflexivity|]. split; [reflexivity|]. split.
+  - eexists. split; [vm_compute; reflexivity|]. split; [|vm_compute; reflexivity].
+    unfold main_ok. repeat split; vm_compute; try reflexivity; discriminate.
+  - vm_compute. split; reflexivity.
+Qed.
+
+(* one writer among several: the operations of the image are a prefix of the serialized history, hence for each writer
+   a prefix of its own operations in issue order (mine = "issued by this writer") *)
+Theorem C08_prefix_per_writer : forall (A : Type) (mine : A -> bool) (h : list A) (k : nat),
+  exists j, filter mine (firstn k h) = firstn j (filter mine h).
+Proof. exact prefix_per_writer. Qed.
+Print Assumptions C08_prefix_per_writer.
+
+(* a writer that is not excluded from stage 5 (seeded change of round 4: BKP_WAL_COPY2 under the log mutex only): an
+   operation of two stores, the first logged before the closing savepoint, the second after it - the image opens to a
+   state with the first store only.  backup_run_w5 with no event in stage 5 is backup_run. *)
+Theorem C08_writer_in_stage5_refuted :
+  w5_summary = Some (VOk, 1, 0) /\
+  option_map (fun m => (nth 100 m 0, nth 101 m 0)) (apply_ops rm_main (evs_ops w5_op)) = Some (1, 2) /\
+  (nth 100 rm_main 0, nth 101 rm_main 0) = (0, 0).
+Proof. exact writer_in_stage5_refuted. Qed.
+Print Assumptions C08_writer_in_stage5_refuted.
+
+Theorem C08_backup_run_w5_nil : forall c s0 ts2 ts5 evM evA,
+  backup_run_w5 c s0 ts2 ts5 evM evA [] = backup_run c s0 ts2 ts5 evM evA.
+Proof. exact backup_run_w5_nil. Qed.
+Print Assumptions C08_backup_run_w5_nil.
